@@ -112,6 +112,8 @@ def _gen_bip(rng):
     L, R = _n(rng, 1, 6), _n(rng, 1, 6)
     if rng.random() < 0.05:
         L = 0
+    if rng.random() < 0.05:
+        R = 0
     if c == "glrp":
         args = [L, R, rng.choice([0, 0.0, 0.4, 1, 1.0, 2])]
     elif c == "glrm":
@@ -543,7 +545,7 @@ def _has_biclique(L, R, E, a, b):
 
 def _build(case, toks):
     sim = SimRandom(case["prng"]["seed"], case["prng"]["strategy"],
-                    case["prng"]["budget"], max_draws=300_000)
+                    case["prng"]["budget"], max_draws=60_000)
     with installed(sim):
         r = call(make_graph_from_spec, case["type"], list(toks))
     return r, sim
@@ -768,7 +770,7 @@ def _exec_cli(case, ctx):
            "dag": ["peb"]}[gtype]
     argv = ["cnfgen", "-q"] + fam + spec
     sim = SimRandom(case["prng"]["seed"], case["prng"]["strategy"],
-                    case["prng"]["budget"], max_draws=300_000)
+                    case["prng"]["budget"], max_draws=60_000)
     climsg._prefix = ""
     with open_router(fs), installed(sim):
         res = call(cnfgen_cli, argv, mode="formula")
